@@ -12,7 +12,7 @@ import legacy_common as lc
 
 ID = "C13"
 IMPORTS = ["CaresProps.C13"]
-LEAN_TARGETS = ["CaresProps.C13", "driver_legacy"]
+LEAN_TARGETS = ["CaresProps.C13", "driver_legacy", "driver_text"]
 THEOREMS = [
     "Cares.C13.addrs_exact",
     "Cares.C13.addrs_multiset",
@@ -346,6 +346,63 @@ def opkind(line):
     return " ".join(t[:2]) if t[0] == "leg" else t[0]
 
 
+def mon_hosts_addrs(case, out):
+    """hosts-file lookups: when every line of the file is well-formed and no address occurs twice, a name that is found
+    must come back with (at least) every address listed for it on any line, whatever the family"""
+    import binascii
+    import re as _re
+    bad = []
+    lines = None
+    for line, o in zip(case, out):
+        t = line.split()
+        if t[0] == "file":
+            lines = None
+            if len(t) < 3 or t[2] == "none":
+                continue
+            try:
+                raw = binascii.unhexlify(t[2]).decode("latin1")
+            except Exception:
+                continue
+            parsed, ok, seen = [], True, set()
+            for ln in _re.split(r"[\r\n]", raw):
+                ln = ln.split("#", 1)[0].strip(" \t")
+                if not ln:
+                    continue
+                tok = ln.split()
+                try:
+                    ip = ipaddress.ip_address(tok[0])
+                except ValueError:
+                    ok = False
+                    break
+                if len(tok) < 2 or ip in seen or not all(_re.fullmatch(r"[A-Za-z0-9._-]{1,60}", n) for n in tok[1:]):
+                    ok = False
+                    break
+                seen.add(ip)
+                parsed.append((ip, [n.lower() for n in tok[1:]]))
+            lines = parsed if ok else None
+        elif t[0] == "hosts" and lines is not None:
+            res = o.split(" ")
+            for q, r in zip(t[2:], res):
+                if not q.startswith("n:") or not r.startswith("ok|"):
+                    continue
+                name = binascii.unhexlify(q[2:]).decode("latin1").lower()
+                got = set()
+                m = _re.search(r"ad=([0-9a-f:,]*)", r)
+                for a in (m.group(1).split(",") if m and m.group(1) else []):
+                    fam, hx = a.split(":")
+                    got.add(ipaddress.ip_address(binascii.unhexlify(hx)))
+                want = {ip for ip, names in lines if name in names}
+                if not want <= got:
+                    bad.append(("hosts-address-dropped", "hosts lookup of %r returned %s but the file also lists %s for it"
+                                % (name, sorted(map(str, got)), sorted(map(str, want - got)))))
+    return bad
+
+
+def _hosts_stream():
+    from props import C15 as _c15
+    return Stream("hosts", "h_text", "driver_text", _c15.gen_hosts, monitor=mon_hosts_addrs, nontrivial=_c15._nontrivial)
+
+
 STREAMS = [
     Stream("addrinfo", "h_legacy", "driver_legacy", gen_addrinfo, monitor=mon_addrinfo,
            driver_input=lc.driver_input, compare=lc.compare_skip_mon, opkind=opkind),
@@ -356,6 +413,7 @@ STREAMS = [
            driver_input=lc.driver_input, compare=lc.compare_skip_mon, opkind=opkind),
     Stream("sortlist", "h_legacy", "driver_legacy", gen_sortlist, monitor=mon_sortlist,
            driver_input=lc.driver_input, compare=lc.compare_skip_mon, opkind=opkind),
+    _hosts_stream(),
 ]
 
 LEVEL_TEXT = ("Proof (PURE PART; the end-to-end lookups - merge of the A and AAAA sub-queries, hosts file, lookup "
